@@ -60,3 +60,30 @@ Lemma merge_fixed_on_witness :
   hist (record A 105 2 3 d13_state) =
   [mkEv 1003 A 105 0 3; mkEv 1000 B 105 0 5].
 Proof. vm_compute. reflexivity. Qed.
+
+(* ---- long addresses: rewind / replay with the fixed 256-byte buffer --------- *)
+(* before the repair: rtosc_amessage(tmp, 256, ...) fails for a set-message
+   longer than 256 bytes; rewind then handed the zeroed buffer (an empty
+   message) to the callback, replay skipped the callback *)
+Inductive msg_old := SetMsgOld (a : addr) (ty : Z) (v : Z) | EmptyMsgOld.
+
+(* size of "<addr> ,<t> <4 bytes>" as vsosc_null computes it *)
+Definition set_len (a : addr) : Z :=
+  let l := Z.of_nat (length a) in (l + (4 - l mod 4)) + 4 + 4.
+Definition fits (a : addr) : bool := set_len a <=? 256.
+
+Definition rewind_old (e : ev) : list msg_old :=
+  if fits (eaddr e) then [SetMsgOld (eaddr e) (ety e) (eold e)] else [EmptyMsgOld].
+Definition replay_old (e : ev) : list msg_old :=
+  if fits (eaddr e) then [SetMsgOld (eaddr e) (ety e) (enew e)] else [].
+
+(* "/" followed by 247 'L': 248 bytes, set-message 260 bytes *)
+Definition long_addr : addr := 47 :: repeat 76 247.
+Definition long_ev : ev := mkEv 1000 long_addr 105 1 2.
+
+Lemma long_address_refuted :
+  set_len long_addr = 260 /\
+  rewind_old long_ev = [EmptyMsgOld] /\ replay_old long_ev = [] /\
+  (* the repaired functions deliver the set-messages *)
+  rewind long_ev = [SetMsg long_addr 105 1] /\ replay long_ev = [SetMsg long_addr 105 2].
+Proof. vm_compute. repeat split; reflexivity. Qed.
